@@ -76,10 +76,12 @@ Definition ql_ident_dom (s : ustr) : bool :=
   | c :: _ => negb (c =? 64) && negb (c =? 36) && negb (contains [58; 58] s) && negb (dunder s) && no_prohibited s
   end.
 (* parameter names may start with '$' *)
+(* ... but not with a backtick: param_to_str passes such names through unchanged (the parser keeps
+   the backticks of a quoted parameter as part of the name), so they are outside the domain here *)
 Definition ql_param_dom (s : ustr) : bool :=
   match s with
   | [] => false
-  | c :: _ => negb (c =? 64) && negb (contains [58; 58] s) && negb (dunder s) && no_prohibited s
+  | c :: _ => negb (c =? 64) && negb (c =? 96) && negb (contains [58; 58] s) && negb (dunder s) && no_prohibited s
   end.
 
 Lemma bt_head : forall c s, exists c' B, flat_map bt1 (c :: s) = c' :: B /\ (c' = c \/ (c = 96 /\ c' = 96)).
@@ -229,11 +231,11 @@ Lemma kw_partial_disjoint :
 Proof. vm_compute. reflexivity. Qed.
 
 (* a bare keyword token that quote_ident(allow_reserved=False) lets through is not reserved,
-   except the two exempt dunder names *)
+   except the reserved __names__ (which no quoted form can express) *)
 Lemma bare_not_reserved : forall s an,
   ql_needs_quoting U s false an = false -> ql_ident_dom s = true ->
   ql_as_keyword s = true -> ql_kw_reserved s = true ->
-  in_strs (map ascii_lower s) g_ql_reserved_exempt = true.
+  dunder (map ascii_lower s) = true.
 Proof.
   intros s an Hn Hd Hk Hr. destruct s as [|c s]; [discriminate|].
   unfold ql_ident_dom in Hd.
@@ -244,7 +246,8 @@ Proof.
   apply orb_false_iff in Hn as [_ Hn]. cbn [negb andb] in Hn.
   rewrite (lower_ascii (c :: s)) in Hn by now apply as_keyword_ascii.
   unfold ql_kw_reserved in Hr. unfold ql_py_reserved in Hn. rewrite Hr in Hn. cbn [andb] in Hn.
-  destruct (in_strs (map ascii_lower (c :: s)) g_ql_reserved_exempt); [reflexivity|].
+  unfold g_ql_exempt_start, g_ql_exempt_end in Hn. fold (dunder (map ascii_lower (c :: s))) in Hn.
+  destruct (dunder (map ascii_lower (c :: s))); [reflexivity|].
   cbn [negb andb] in Hn. apply negb_false_iff in Hn.
   pose proof kw_partial_disjoint as D. rewrite forallb_forall in D.
   apply in_strs_iff in Hn. apply D in Hn. rewrite Hr in Hn. discriminate.
@@ -335,8 +338,7 @@ Theorem p_ql_quote_ident : forall force ar an s k,
   (an = true -> dec_value s < 18446744073709551616) ->
   exists t, ql_lex1 U (ql_quote_ident U force ar an s ++ k) = LexOk t k /\
     (t = TIdent s
-     \/ (t = TKeyword s /\ (ar = false -> ql_kw_reserved s = true ->
-                            in_strs (map ascii_lower s) g_ql_reserved_exempt = true))
+     \/ (t = TKeyword s /\ (ar = false -> ql_kw_reserved s = true -> dunder (map ascii_lower s) = true))
      \/ (an = true /\ py_num_match U s = true /\ t = TInt (dec_value s))).
 Proof.
   intros force ar an s k Hd Hc Hn Hk Hv.
@@ -415,10 +417,12 @@ Proof.
   assert (Hk96 : not_starting 96 k).
   { destruct k as [|d k]; cbn; auto.
     destruct (ql_boundary_cons d k Hk) as (B34 & B39 & B96 & B36 & Bn & Ba & Bd). now apply N.eqb_neq. }
-  unfold ql_param_to_str. rewrite <- app_comm_cons. rewrite ql_lex1_dollar_eq.
   destruct s as [|c r]; [discriminate|]. unfold ql_param_dom in Hd.
   apply andb_true_iff in Hd as [Hd Hp]. apply andb_true_iff in Hd as [Hd Hdu].
-  apply andb_true_iff in Hd as [H64 Hco]. apply negb_true_iff in H64, Hco, Hdu.
+  apply andb_true_iff in Hd as [Hd Hco]. apply andb_true_iff in Hd as [H64 H96].
+  apply negb_true_iff in H64, H96, Hco, Hdu.
+  unfold ql_param_to_str. cbn [prefix]. rewrite (N.eqb_sym 96 c), H96. cbn [andb].
+  rewrite <- app_comm_cons. rewrite ql_lex1_dollar_eq.
   unfold ql_quote_ident. cbn [orb]. destruct (ql_needs_quoting U (c :: r) true true) eqn:E.
   - rewrite quote_raw_flat. rewrite <- app_comm_cons, <- app_assoc. cbn [app].
     unfold lex_dollar. cbn [N.eqb Pos.eqb]. rewrite scan_bt_body by auto.
